@@ -58,6 +58,7 @@ def prop(pid, **kw):
 
 
 prop("C01",
+     specgen=(40, 500),
      scripts=lambda tier, rnd: S.basic() + S.collision() + S.stop_points() + S.reaction_table() + S.gated() + S.api_races() +
      sample(S.pacing(), rnd, 200 if tier == "thorough" else 30) + S.collision_racy(rnd, 60 if tier == "thorough" else 10) +
      (S.damping() + S.writers() + S.registry(rnd, 120) if tier == "thorough" else sample(S.damping(), rnd, 10)),
@@ -70,6 +71,7 @@ prop("C01",
           "code; non-trivial = the recorded trace contains at least one OnEstablished callback; distinct by script content hash")
 
 prop("C07",
+     specgen=(30, 300),
      scripts=lambda tier, rnd: S.collision() + [x for x in S.gated() if "collision" in x["tags"]] +
      (S.collision_racy(rnd, 60 if tier == "thorough" else 8)),
      mc=lambda tier: [mc_pair(["openLo", "ka"])] if tier == "quick" else
@@ -81,6 +83,7 @@ prop("C07",
           "accepted (two OnOpenMessage callbacks)")
 
 prop("C09",
+     specgen=(40, 500),
      scripts=lambda tier, rnd: S.reaction_table() + (S.notif_values(rnd, 200 if tier == "thorough" else 30)) +
      sample(S.trailing(), rnd, 176 if tier == "thorough" else 30) + sample(S.pacing(), rnd, 60 if tier == "thorough" else 15),
      mc=lambda tier: [mc_pair(["openLo", "ka", "upd"], conns=1, msgs=3)] if tier == "quick" else
@@ -91,6 +94,7 @@ prop("C09",
           "probe; non-trivial = the script reached the cell's state and delivered the message")
 
 prop("C10",
+     specgen=(40, 500),
      scripts=lambda tier, rnd: S.stop_points() + S.gated() + S.api_races() + S.stop_dial_race(12 if tier == "thorough" else 3) +
      S.stop_everywhere(rnd, 400 if tier == "thorough" else 60),
      mc=lambda tier: [mc_pair(["openLo", "ka"])] if tier == "quick" else
@@ -102,6 +106,7 @@ prop("C10",
           "the end of every script; non-trivial = a Close or DeletePeer returned in the trace")
 
 prop("C12",
+     specgen=(30, 400),
      scripts=lambda tier, rnd: S.damping() + S.damping_exact() + (S.damping_matrix() if tier == "thorough" else sample(S.damping_matrix(), rnd, 60)) + S.collision_racy(rnd, 40 if tier == "thorough" else 12) +
      (S.damping_random(rnd, 150) if tier == "thorough" else S.damping_random(rnd, 15)),
      mc=lambda tier: [mc_pair(["openLo", "ka", "notif"])] if tier == "quick" else
@@ -111,6 +116,7 @@ prop("C12",
           "threshold (60 s, doubling, 300 s cap, 300 s amnesia), and non-damping faults; exact virtual time")
 
 prop("C11",
+     specgen=(30, 400),
      scripts=lambda tier, rnd: S.inbound_drop() + (S.pacing() if tier == "thorough" else sample(S.pacing(), rnd, 70)),
      mc=lambda tier: [mc_pair(["openLo", "ka", "cease"], conns=1, msgs=3, dials=3)] if tier == "quick" else
      [mc_pair(["openLo", "ka", "cease"], conns=2, msgs=2, dials=3)],
